@@ -10,6 +10,10 @@ import (
 	"time"
 
 	"github.com/FollowTheProcess/spok/file"
+	"github.com/FollowTheProcess/spok/iostream"
+	"github.com/FollowTheProcess/spok/parser"
+	"github.com/FollowTheProcess/spok/shell"
+	"sort"
 )
 
 type nopLogger struct{}
@@ -130,6 +134,8 @@ func main() {
 	switch os.Args[2] {
 	case "C17":
 		fails = c17()
+	case "C05":
+		fails = c05()
 	}
 	for _, f := range fails {
 		fmt.Println("FAILING-CASE", f)
@@ -137,4 +143,107 @@ func main() {
 	if len(fails) > 0 {
 		os.Exit(1)
 	}
+}
+
+// ---- C05: glob expansion vs an independent reference matcher over all subsets of a pool of paths ----
+
+type okRunner struct{}
+
+func (okRunner) Run(cmd string, _ iostream.IOStream, _ string, _ []string) (shell.Result, error) {
+	return shell.Result{Cmd: cmd}, nil
+}
+
+// matchSegs: reference matcher. '*' matches any run of non-separator characters inside one segment,
+// a segment '**' matches any number of whole segments (including none).
+func matchSeg(pat, name string) bool {
+	if pat == "" {
+		return name == ""
+	}
+	if pat[0] == '*' {
+		for i := 0; i <= len(name); i++ {
+			if matchSeg(pat[1:], name[i:]) {
+				return true
+			}
+		}
+		return false
+	}
+	return name != "" && pat[0] == name[0] && matchSeg(pat[1:], name[1:])
+}
+
+func matchSegs(pat, path []string) bool {
+	if len(pat) == 0 {
+		return len(path) == 0
+	}
+	if pat[0] == "**" {
+		for i := 0; i <= len(path); i++ {
+			if matchSegs(pat[1:], path[i:]) {
+				return true
+			}
+		}
+		return false
+	}
+	return len(path) > 0 && matchSeg(pat[0], path[0]) && matchSegs(pat[1:], path[1:])
+}
+
+func c05() []string {
+	pool := []string{"a.js", "b.txt", ".hid.js", "sub/c.js", "sub/.h2/y.js", ".h/x.js", "sub/d.txt", "z.js"}
+	patterns := []string{"*.js", "**/*.js", "sub/*", "*/*", "**", "sub/**", "*"}
+	var fails []string
+	total := 0
+	for mask := 1; mask < 1<<len(pool); mask++ {
+		base, _ := os.MkdirTemp("", "fsprobe-")
+		base, _ = filepath.EvalSymlinks(base)
+		var files []string
+		for i, p := range pool {
+			if mask&(1<<i) != 0 {
+				os.MkdirAll(filepath.Join(base, filepath.Dir(p)), 0o755)
+				os.WriteFile(filepath.Join(base, p), []byte("x"), 0o644)
+				files = append(files, p)
+			}
+		}
+		for _, pat := range patterns {
+			total++
+			text := "task t(\"" + pat + "\") {\n echo t\n}\n"
+			tree, err := parser.New(text).Parse()
+			if err != nil {
+				fails = append(fails, "parse: "+err.Error())
+				continue
+			}
+			sf, err := file.New(tree, base, nopLogger{})
+			if err != nil {
+				fails = append(fails, "file.New: "+err.Error())
+				continue
+			}
+			if _, err := sf.Run(iostream.Null(), okRunner{}, true, "t"); err != nil {
+				fails = append(fails, fmt.Sprintf("tree %v pattern %q: Run error %v", files, pat, err))
+				continue
+			}
+			var got []string
+			for _, g := range sf.Globs[pat] {
+				if fi, err := os.Stat(g); err == nil && !fi.IsDir() {
+					got = append(got, strings.TrimPrefix(g, base+"/"))
+				}
+			}
+			sort.Strings(got)
+			var want []string
+			for _, f := range files {
+				if !strings.HasPrefix(f, ".") && matchSegs(strings.Split(pat, "/"), strings.Split(f, "/")) {
+					want = append(want, f)
+				}
+			}
+			sort.Strings(want)
+			if strings.Join(got, ",") != strings.Join(want, ",") {
+				fails = append(fails, fmt.Sprintf("tree %v pattern %q: expanded to files %v, reference matcher says %v", files, pat, got, want))
+			}
+			if len(fails) >= 3 {
+				os.RemoveAll(base)
+				os.RemoveAll(filepath.Join(base, ".spok"))
+				fmt.Printf("SEARCH prop=C05 cases=%d failures=%d (stopped early)\n", total, len(fails))
+				return fails
+			}
+		}
+		os.RemoveAll(base)
+	}
+	fmt.Printf("SEARCH prop=C05 cases=%d failures=%d\n", total, len(fails))
+	return fails
 }
